@@ -55,6 +55,7 @@ def generate(rng, i, tier):
         "dialect": rng.choice([[",", '"']] * 4 + [[";", '"'], [",", "'"]]),
         # every CsvPath of the scenario created by ONE CsvPaths instance (they then share its file cacher)
         "via": rng.random() < 0.3,
+        "pre_advance": rng.choice([0] * 6 + [1, 2, 3]),
         # blank records are matched like any other line instead of being skipped
         "keep_blank_lines": rng.random() < 0.12,
     }
@@ -71,6 +72,8 @@ def reductions(sc):
         yield c
     if sc["dialect"] != [",", '"']:
         yield with_(sc, dialect=[",", '"'])
+    if sc.get("pre_advance"):
+        yield with_(sc, pre_advance=0)
     if sc.get("via"):
         yield with_(sc, via=False)
     if sc.get("keep_blank_lines"):
@@ -126,7 +129,13 @@ def execute(sc):
             cp = shared.csvpath() if shared is not None else CsvPath(delimiter=delim, quotechar=quote, skip_blank_lines=not sc.get("keep_blank_lines"))
             tp = TestPrinter()
             cp.add_printer(tp)
+            if sc.get("pre_advance"):
+                # the public way of skipping preamble lines before a run: parse(), advance(k), then the entry point
+                cp.parse(text)
+                cp.advance(sc["pre_advance"])
             return cp, tp
+
+        arg = () if sc.get("pre_advance") else (text,)
 
         with ops.quiet():
             try:
@@ -134,7 +143,7 @@ def execute(sc):
                 snaps, yielded, kept = [], [], []
                 next_exc = None
                 try:
-                    for line in cp.next(text):
+                    for line in cp.next(*arg):
                         kept.append(line)  # the very objects the generator handed out, as `list(cp.next())` would keep them
                         yielded.append(list(line))
                         snaps.append(_st(cp, tp.lines))
@@ -161,7 +170,7 @@ def execute(sc):
                     return None, ops.exc_sig(e)
 
             cp, tp = mk()
-            got, cexc = attempt(lambda: [list(x) for x in cp.collect(text)])
+            got, cexc = attempt(lambda: [list(x) for x in cp.collect(*arg)])
             sc_ = _st(cp, tp.lines)
             out.runs += 1
             if (cexc is None) != (next_exc is None):
@@ -172,7 +181,7 @@ def execute(sc):
             if d:
                 out.v("collect_state", f"{text!r}: state after collect() differs from next(): {d}", field=d.split(":")[0])
             cp, tp = mk()
-            _, fexc = attempt(lambda: cp.fast_forward(text))
+            _, fexc = attempt(lambda: cp.fast_forward(*arg))
             sf = _st(cp, tp.lines)
             out.runs += 1
             if (fexc is None) != (next_exc is None):
@@ -182,7 +191,7 @@ def execute(sc):
                 out.v("fast_forward_state", f"{text!r}: state after fast_forward() differs from next(): {d}", field=d.split(":")[0])
             for n in range(1, len(yielded) + 2):
                 cp, tp = mk()
-                ln, nexc = attempt(lambda: [list(x) for x in cp.collect(text, nexts=n)])
+                ln, nexc = attempt(lambda: [list(x) for x in cp.collect(*arg, nexts=n)])
                 if nexc is not None:
                     if n <= len(yielded):
                         out.v("nexts_raised", f"{text!r}: collect(nexts={n}) raised {nexc} although next() yielded {len(yielded)} lines before any exception")
@@ -204,6 +213,7 @@ def execute(sc):
         out.sig = [feats, len(yielded), len(sc["rows"]), "".join("b" if r == [] else "r" for r in sc["rows"])[:12], sc["policy"]]
         out.nontrivial = bool(yielded) and (bool(fin["variables"]) or bool(fin["printouts"]) or not fin["is_valid"])
         out.probe("all instances created by one CsvPaths", bool(sc.get("via")))
+        out.probe("parse() + advance(k) before the entry point", bool(sc.get("pre_advance")))
         out.probe("skip_blank_lines=False over a file with an interior blank record", bool(sc.get("keep_blank_lines")) and any(r == [] for r in sc["rows"][1:-1]))
         out.probe("stopped before the end of the file", fin["stopped"] and bool(yielded))
         out.probe("errors during the run", bool(fin["errors"]))
